@@ -120,6 +120,44 @@ fn inject(rng: &mut Rng, p: &Project, tree: &mut BTreeMap<String, String>, kind:
             tree.insert(f.clone(), t);
             Some(Injected { file: f, kind: kind.into(), stage: 4 })
         }
+        "unknown_field_in_imported_fragment" => {
+            // a fault inside the body of a fragment that another file imports and spreads in one
+            // of its operations: the offending file is the fragment's file
+            let mut cands: Vec<(usize, String)> = Vec::new();
+            for (fi, f) in p.ops.iter().enumerate() {
+                for d in &f.defs {
+                    if let crate::model::OpDef::Operation { sel, .. } = d {
+                        let mut sp = Vec::new();
+                        crate::wgen::spreads_of(sel, &mut sp);
+                        for imp in &f.imports {
+                            let Some(g) = imp.target else { continue };
+                            if g == fi {
+                                continue;
+                            }
+                            for d2 in &p.ops[g].defs {
+                                if let crate::model::OpDef::Fragment { name, .. } = d2 {
+                                    let imported = imp.names.as_ref().is_none_or(|ns| ns.contains(name));
+                                    // (fragment names may repeat across files: only unambiguous ones)
+                                    let unique = p.ops.iter().flat_map(|o| o.defs.iter()).filter(|x| x.is_fragment() && x.name() == Some(name.as_str())).count() == 1;
+                                    if imported && unique && sp.contains(name) {
+                                        cands.push((g, name.clone()));
+                                    }
+                                }
+                            }
+                        }
+                    }
+                }
+            }
+            if cands.is_empty() {
+                return None;
+            }
+            let (g, name) = rng.pick(&cands).clone();
+            let f = p.op_abs(g);
+            let head = format!("fragment {name} on ");
+            let t = insert_after_first(&tree[&f], |l| l.trim_start().starts_with(&head) && l.trim_end().ends_with('{'), "  zzUnknownField")?;
+            tree.insert(f.clone(), t);
+            Some(Injected { file: f, kind: kind.into(), stage: 4 })
+        }
         "unknown_type" => {
             let mut cands: Vec<&String> = schema_files.iter().filter(|f| tree[*f].split('\n').any(|l| l.starts_with("type ") && l.ends_with('{'))).collect();
             if cands.is_empty() {
@@ -207,6 +245,7 @@ const VIOLATION_KINDS: &[&str] = &[
     "unknown_fragment_oneline",
     "unknown_field",
     "unknown_fragment",
+    "unknown_field_in_imported_fragment",
     "unknown_type",
     "dup_operation",
     "dangling_import",
@@ -1436,6 +1475,18 @@ fn drive_c18f(sc: &E2Scenario, rep: &mut RunReport) {
                                 &["C18"],
                                 "C18.F-listed-incomplete",
                                 format!("{what}: {l} is announced as generated but its bytes differ from the complete file ({} vs {} bytes)", after.get(l).map(|b| b.len()).unwrap_or(0), gtree.get(l).map(|b| b.len()).unwrap_or(0)),
+                            );
+                        }
+                    }
+                    // ... and conversely every file that is completely on disk is announced: "generate
+                    // writes exactly the files it lists" (partial files are not demanded to be listed -
+                    // the statement does not promise atomic output)
+                    for c in &changed {
+                        if glisted.contains(c) && !listed.contains(c) && after.get(c).is_some() && after.get(c) == gtree.get(c) {
+                            rep.violate(
+                                &["C18"],
+                                "C18.F-complete-file-not-listed",
+                                format!("{what}: exit 1; {c} was written completely (same bytes as in the fault-free run) but the output does not list it; listed: {listed:?}"),
                             );
                         }
                     }
